@@ -476,6 +476,7 @@ RunLoop:
 				} else {
 					// Truncate close stack
 					h := c.closeStackBase + int(opcode.GetClStackOffset())
+					c.pc = pc // the closing methods may ask for the caller's position
 					if err := t.cleanupCloseStack(c, h, nil); err != nil {
 						c.pc = pc
 						return nil, err
